@@ -12,7 +12,8 @@ MULTI = [97, 233, 8364, 119070, 98, 231]
 FORMS = [0, 1, 2, 3, 4, 5, 6, 10, 11]   # +10: an omitted step is written with its colon (x[a:b:])
 # kinds 6..8: containers built in the template by concatenation: unsized lazy + list, list + unsized lazy, list|chain(lazy)
 KINDS = [(0, ASCII), (0, MULTI), (1, [0, 1, 127, 128, 255, 7]), (2, None), (3, None), (4, None), (5, None), (6, None), (7, None), (8, None),
-         (9, ASCII), (9, MULTI), (10, None), (11, ASCII), (11, MULTI), (12, MULTI)]
+         (9, ASCII), (9, MULTI), (10, None), (11, ASCII), (11, MULTI), (12, MULTI), (13, None), (14, None)]
+# kinds 13/14: lazy|zip(longer list) / (longer list)|zip(lazy): pairs, compared by their first component
 # kinds 9/10: the container is a string / list LITERAL in the template source; 11: safe (heap) string; 12: Arc<str> (heap) string
 
 
@@ -95,7 +96,7 @@ def gen(chk):
 
 
 def describe(c):
-    kind = ["str", "bytes", "tuple", "list", "lazy(sized)", "lazy(unsized)", "lazy + list", "list + lazy", "list|chain(lazy)", "str literal in source", "list literal in source", "safe str", "Arc<str>"][c[0]]
+    kind = ["str", "bytes", "tuple", "list", "lazy(sized)", "lazy(unsized)", "lazy + list", "list + lazy", "list|chain(lazy)", "str literal in source", "list literal in source", "safe str", "Arc<str>", "lazy|zip(list)", "list|zip(lazy)"][c[0]]
     def o(t, v): return "" if t == 0 else str(v)
     n = c[9]
     SECOND = ["[::-1]", "[1:]", "[:-1]", "[::2]", "[-2:]", "[1:-1]", "[-1::-1]", "[0:2]"]
